@@ -42,6 +42,8 @@ def obj(a):
     """anything array-like -> plain object ndarray of Sym (or a Sym scalar)"""
     if isinstance(a, Sym):
         return a
+    if isinstance(a, FlatView):
+        a = a._r()
     if isinstance(a, np.ndarray):
         if a.dtype == object:
             b = a.view(np.ndarray)
@@ -115,7 +117,7 @@ def wrap(a):
 
 
 def has_sym(x):
-    if isinstance(x, (Sym, SymArray)):
+    if isinstance(x, (Sym, SymArray, FlatView)):
         return True
     if isinstance(x, np.ndarray):
         return x.dtype == object and x.size > 0 and any(isinstance(e, Sym) for e in x.flat)
@@ -659,6 +661,14 @@ class SymArray(np.ndarray):
             v = lift(v)
         np.ndarray.__setitem__(self, k, v)
 
+    @property
+    def flat(self):
+        return FlatView(self)
+
+    @flat.setter
+    def flat(self, value):
+        self.view(np.ndarray).flat = obj(value) if not isinstance(value, Sym) else value
+
     # ---- methods implemented in C for base class
     def astype(self, dtype, *a, **kw):
         k = _dtype_kind(dtype)
@@ -711,6 +721,55 @@ class SymArray(np.ndarray):
 
     def __repr__(self):
         return 'SymArray(%s)' % (self.view(np.ndarray).tolist(),)
+
+
+class FlatView:
+    """stand-in for ndarray.flat of a SymArray (numpy's flatiter drops the subclass and cannot be indexed by
+    symbolic masks): reads go to a 1-d SymArray, writes go through to the base when it is contiguous"""
+
+    def __init__(self, arr):
+        self._arr = arr
+
+    def _r(self):
+        return self._arr.reshape(-1)
+
+    def __len__(self):
+        return self._arr.size
+
+    def __iter__(self):
+        return iter(self._r())
+
+    def __array__(self, dtype=None, copy=None):
+        return self._r().view(np.ndarray)
+
+    def __getitem__(self, k):
+        return self._r()[k]
+
+    def __setitem__(self, k, v):
+        if not self._arr.flags.c_contiguous:
+            raise EngineLimit('write through .flat of a non-contiguous symbolic array')
+        r = self._arr.reshape(-1)
+        if not np.shares_memory(r, self._arr):
+            raise EngineLimit('write through .flat would not alias')
+        r[k] = v
+
+    def __getattr__(self, name):
+        return getattr(self._r(), name)
+
+
+def _flat_binop(name):
+    def op(self, o):
+        o = o._r() if isinstance(o, FlatView) else o
+        return getattr(self._r(), name)(o)
+    return op
+
+
+for _n in ('__add__', '__radd__', '__sub__', '__rsub__', '__mul__', '__rmul__', '__truediv__', '__rtruediv__',
+           '__lt__', '__le__', '__gt__', '__ge__', '__eq__', '__ne__', '__and__', '__or__', '__xor__',
+           '__rand__', '__ror__', '__rxor__'):
+    setattr(FlatView, _n, _flat_binop(_n))
+FlatView.__invert__ = lambda self: ~self._r()
+FlatView.__hash__ = None
 
 
 def _prep_index(k):
@@ -1189,12 +1248,38 @@ class Proxy(types.ModuleType):
             return SymReal(e, x.nan, FALSE)
         return np.spacing(x)
 
+    def cos(self, x, *a, **kw):
+        if active() and isinstance(x, (float, int, np.floating, np.integer)) and not a and not kw:
+            stub_hit('S-trig-dyadic')
+            return trig(x)[0]
+        return np.cos(x, *a, **kw)
+
+    def sin(self, x, *a, **kw):
+        if active() and isinstance(x, (float, int, np.floating, np.integer)) and not a and not kw:
+            stub_hit('S-trig-dyadic')
+            return trig(x)[1]
+        return np.sin(x, *a, **kw)
+
     def arange(self, *a, **kw):
         if has_sym(a):
             a = [operator.index(x) if isinstance(x, SymInt) else x for x in a]
             if has_sym(a):
                 raise EngineLimit('arange with symbolic real')
         return np.arange(*a, **kw)
+
+
+TRIG_BITS = 24
+
+
+def trig(theta):
+    """(cos, sin) of a concrete angle rounded to dyadic rationals with TRIG_BITS fractional bits while an
+    exploration is active (keeps the rational arithmetic of the solver small; the rounding error of 2**-25 is
+    covered by the boundary bands of the harnesses); exact doubles otherwise."""
+    c, s = math.cos(theta), math.sin(theta)
+    if active():
+        k = float(2 ** TRIG_BITS)
+        return np.float64(round(c * k) / k), np.float64(round(s * k) / k)
+    return np.float64(c), np.float64(s)
 
 
 P = Proxy('np_proxy')
@@ -1325,3 +1410,40 @@ def same_arrays(a, b):
     for i in np.ndindex(*a.shape):
         terms.append(sc.same(a[i], b[i]))
     return And_(*terms)
+
+
+# --------------------------------------------------------------------------
+# Sym scalar (op) list/tuple/ndarray  ->  elementwise, like numpy scalars do
+
+_SEQ_OPS = {
+    '__add__': (np.add, False), '__radd__': (np.add, True),
+    '__sub__': (np.subtract, False), '__rsub__': (np.subtract, True),
+    '__mul__': (np.multiply, False), '__rmul__': (np.multiply, True),
+    '__truediv__': (np.true_divide, False), '__rtruediv__': (np.true_divide, True),
+    '__lt__': (np.less, False), '__le__': (np.less_equal, False), '__gt__': (np.greater, False),
+    '__ge__': (np.greater_equal, False), '__eq__': (np.equal, False), '__ne__': (np.not_equal, False),
+    '__and__': (np.bitwise_and, False), '__rand__': (np.bitwise_and, True),
+    '__or__': (np.bitwise_or, False), '__ror__': (np.bitwise_or, True),
+    '__xor__': (np.bitwise_xor, False), '__rxor__': (np.bitwise_xor, True),
+}
+
+
+def _install_seq_ops():
+    for cls in (SymBool, SymInt, SymReal):
+        for name, (uf, refl) in _SEQ_OPS.items():
+            orig = cls.__dict__.get(name)
+            if orig is None:
+                continue
+
+            def make(orig, uf, refl):
+                def op(self, o):
+                    if isinstance(o, (list, tuple)) or (isinstance(o, np.ndarray) and o.ndim > 0):
+                        arr = obj(o)
+                        return array_ufunc(uf, '__call__', (arr, self) if refl else (self, arr), None, {})
+                    return orig(self, o)
+                op.__name__ = orig.__name__
+                return op
+            setattr(cls, name, make(orig, uf, refl))
+
+
+_install_seq_ops()
